@@ -464,7 +464,10 @@ impl<'h> Exec<'h> {
     pub fn violate(&mut self, property: &str, class: impl Into<String>, detail: impl Into<String>) {
         let mut class: String = class.into();
         let mut detail: String = detail.into();
-        if property == "C01" || property == "C03" || (property == "C08" && class.starts_with("contents-changed")) {
+        // A tree whose levels were misordered (files overlapping within a level >= 1, or a newer
+        // version beneath an older one) also makes compaction select and merge the wrong files,
+        // so C05's before/after comparison of a compaction inherits the diagnosis.
+        if property == "C01" || property == "C03" || property == "C05" || (property == "C08" && class.starts_with("contents-changed")) {
             if let Some((op, kind, what)) = self.level_overlap.as_ref() {
                 class = format!("misordered-levels-from-{kind}:{class}");
                 detail = format!("{detail} [file order within a level unsound since op {op} ({kind}): {what}]");
